@@ -142,10 +142,41 @@ def execute(cases, workdir):
         with open(fp, 'wb') as f:
             f.write(c['data'])
         lst.append('%s %s %s' % (c['id'], hx(c['path'].encode('utf-8')), fp))
-    open(workdir + '/list.txt', 'w').write('\n'.join(lst) + '\n')
-    rc, out, err = run([B + '/harness', 'scan-dump', workdir + '/list.txt', workdir + '/cases.txt', workdir + '/impl.txt'], timeout=1800)
-    if rc != 0:
-        return dict(error='harness scan-dump failed rc=%d: %s' % (rc, err.decode(errors='replace')[-500:]))
+    # the harness leaves with status 3 when one file stalls the builder (40 s): that case is recorded as a stall and
+    # the rest is run in a new process
+    remaining, stalled, part = list(lst), [], 0
+    open(workdir + '/cases.txt', 'w').close()
+    open(workdir + '/impl.txt', 'w').close()
+    while remaining:
+        open(workdir + '/list.txt', 'w').write('\n'.join(remaining) + '\n')
+        rc, out, err = run([B + '/harness', 'scan-dump', workdir + '/list.txt', workdir + '/cases.part', workdir + '/impl.part'], timeout=1800)
+        part += 1
+        for src_, dst_ in (('/cases.part', '/cases.txt'), ('/impl.part', '/impl.txt')):
+            with open(workdir + src_, 'rb') as fi, open(workdir + dst_, 'ab') as fo:
+                data_ = fi.read()
+                if src_ == '/cases.part' and rc == 3:
+                    # drop the (complete) CST of the stalled case: the model is not asked about it
+                    pass
+                fo.write(data_)
+        if rc == 0:
+            break
+        if rc != 3 or part > 12:
+            return dict(error='harness scan-dump failed rc=%d: %s' % (rc, err.decode(errors='replace')[-500:]))
+        sid = [l.split(' ')[1].strip() for l in open(workdir + '/impl.part') if l.startswith('STALLED ')]
+        if not sid:
+            return dict(error='harness scan-dump left with status 3 without naming the stalled case')
+        stalled.append(sid[-1])
+        idx = [i for i, l in enumerate(remaining) if l.split(' ', 1)[0] == sid[-1]]
+        remaining = remaining[idx[0] + 1:] if idx else []
+    if stalled:
+        # keep only the CSTs of the cases that completed (the stalled ones have no implementation result to compare)
+        keep, skip = [], False
+        for l in open(workdir + '/cases.txt', 'rb'):
+            if l.startswith(b'CASE '):
+                skip = l.split()[1].decode() in stalled
+            if not skip:
+                keep.append(l)
+        open(workdir + '/cases.txt', 'wb').write(b''.join(keep))
     with open(workdir + '/cases.txt', 'rb') as fin, open(workdir + '/model.txt', 'wb') as fout:
         try:
             p = subprocess.run([B + '/model', 'build'], stdin=fin, stdout=fout, stderr=subprocess.PIPE, timeout=3000)
@@ -159,6 +190,12 @@ def execute(cases, workdir):
         cid = c['id']
         r = dict(case=c)
         ml, il = mb.get(cid), ib.get(cid)
+        if il is not None and any(l == 'OUTCOME stall' for l in il):
+            r['impl_outcome'] = 'stall'
+            r['build_ms'] = int([l for l in il if l.startswith('TIME ')][0][5:])
+            r['impl_nodes'], r['impl_edges'] = [], []
+            recs[cid] = r
+            continue
         if ml is None or il is None:
             dis.append((cid, 'missing-block', ''))
             recs[cid] = r
@@ -184,7 +221,7 @@ def execute(cases, workdir):
             sm, si = set(mnodes) | set(medges), set(inodes) | set(iedges)
             dis.append((cid, 'graph', 'only-model=%s only-impl=%s' % (sorted(sm - si)[:1], sorted(si - sm)[:1])))
         recs[cid] = r
-    return dict(recs=recs, disagreements=dis, cst=None, workdir=workdir)
+    return dict(recs=recs, disagreements=dis, cst=None, workdir=workdir, stalled=stalled)
 
 
 # ---------------- direct oracles (independent of the model's Build functions) ----------------
